@@ -7,5 +7,6 @@ import QeepProps.C11t
 import QeepProps.C11s
 import QeepProps.C11r
 import QeepProps.C11p
+import QeepProps.C11o
 /-! C11 — all property theorems: `C11`, `C11x` (one whole training step at model level for any loss and any number of
-weights) and `C11z` (the step on an FC layer end to end, unconditional for leaf parameters and a data input). `C11w`: the training LOOP — the invariant `FCInv`, `fc_step_inv` (a step keeps it) and `fc_training_loop` (any number of steps succeeds and is gradient descent). `C11v`: a two-layer network FC → Sigmoid → FC end to end (`mlp_backprop`). `C11u`: the walk through the two-layer network succeeds (`mlp_backprop_ok`, either mode), hence `mlp_backprop_leaf` and one whole SGD step on it, unconditionally (`mlp_train_step_leaf`). `C11t` (nothing the optimizer half of a step creates has a back edge, no older tensor changes) and `C11s` (the training LOOP of the two-layer network: `MLPInv`, `mlp_step_inv`, `mlp_training_loop` — any number of steps succeeds). `C11r`: a layer under a loss — FC → CE: `fc_ce_backprop` (the chain rule across the two components on the real walk), `fc_ce_backprop_ok` (the walk succeeds for leaf parameters), `fc_ce_train_step(_leaf)` (one whole SGD step is gradient descent on the CE loss of the layer's output). `C11p`: the LOOP under the loss — `FCCEInv`, `fc_ce_step_inv`, `fc_ce_training_loop` (any number of steps succeeds and the parameters are the iterates of the gradient-descent map `gdStep`). -/
+weights) and `C11z` (the step on an FC layer end to end, unconditional for leaf parameters and a data input). `C11w`: the training LOOP — the invariant `FCInv`, `fc_step_inv` (a step keeps it) and `fc_training_loop` (any number of steps succeeds and is gradient descent). `C11v`: a two-layer network FC → Sigmoid → FC end to end (`mlp_backprop`). `C11u`: the walk through the two-layer network succeeds (`mlp_backprop_ok`, either mode), hence `mlp_backprop_leaf` and one whole SGD step on it, unconditionally (`mlp_train_step_leaf`). `C11t` (nothing the optimizer half of a step creates has a back edge, no older tensor changes) and `C11s` (the training LOOP of the two-layer network: `MLPInv`, `mlp_step_inv`, `mlp_training_loop` — any number of steps succeeds). `C11r`: a layer under a loss — FC → CE: `fc_ce_backprop` (the chain rule across the two components on the real walk), `fc_ce_backprop_ok` (the walk succeeds for leaf parameters), `fc_ce_train_step(_leaf)` (one whole SGD step is gradient descent on the CE loss of the layer's output). `C11p`: the LOOP under the loss — `FCCEInv`, `fc_ce_step_inv`, `fc_ce_training_loop` (any number of steps succeeds and the parameters are the iterates of the gradient-descent map `gdStep`). `C11o`: `gdStep` IS gradient descent on the loss — `ceLoss_deriv_W` / `ceLoss_deriv_B` (the Mathlib partial derivatives of the composite loss CE ∘ FC with respect to the parameters) and `gdStep_is_gradient_descent` (inside the clip band the map the loop iterates is `(W, B) ↦ (W − lr·∂loss/∂W, B − lr·∂loss/∂B)` with these derivatives). -/
